@@ -2,6 +2,7 @@ import LoguruModel.Exc.Model
 import LoguruModel.Exc.Spec
 import LoguruModel.Exc.Frames
 import LoguruModel.Exc.Closing
+import LoguruModel.Exc.FormatList
 import LoguruModel.Driver
 open Exc Py
 
@@ -19,6 +20,8 @@ open Exc Py
         character per frame, h = loguru's own file, v = any other; traceback frames are numbered 1.., callers 1001..;
         answer = `<number>:<mark>` of the frames shown)
   slice <lo|n> <hi|n> <len>      (`Py.slice` on [0, …, len-1])
+  fl <digits>      (`Exc.formatListLoop` on frames identified by one digit each; answer: f<digit> per frame line,
+        r<n> per "repeated n more times")
   closing <diagnose> <frames shown> <final source non-empty> <is AssertionError> <e|s|!>   (`Exc.assertSuffix`;
         str(exc) = empty / non-empty / raises)
 -/
@@ -142,6 +145,18 @@ def step (line : String) : String :=
       let o : Opts := { backtrace := bt, diagnose := false, colorize := false, limit, maxLen := 128 }
       "ok" ++ String.join ((extractLoop o fi fd tb parents).map fun s => s!" {s.fr.info.line}:{b s.mark}")
     | _, _, _, _, _, _ => "bad-op"
+  | ["fl", ds] =>
+    let ids := if ds = "-" then [] else ds.toList
+    if ids.all Char.isDigit then
+      let fs : List Shown := ids.map fun c =>
+        ⟨{ info := { file := [], line := (c.toNat - 48 : Nat), func := [], source := [] }, hidden := false, vals := [] }, false⟩
+      let o : Opts := { backtrace := false, diagnose := false, colorize := false, limit := none, maxLen := 128 }
+      "ok" ++ String.join ((formatListLoop o 0 none Gen.flInit fs).map fun p =>
+        match p with
+        | .frame f _ _ => s!" f{f.line}"
+        | .repeated n _ => s!" r{n}"
+        | _ => " ?")
+    else "bad-op"
   | ["closing", dg, fr, fs, ia, st] =>
     let flag (t : String) : Option Bool := if t = "1" then some true else if t = "0" then some false else none
     let str : Option (Except Err Str) :=
